@@ -26,13 +26,13 @@ RULE = (
     "into an occupied slot or registers >= 2 variables at once"
 )
 SPACE = {
-    "quick": "pool: axis set {X} at 2 positions x 2 variables, {Y} at 1 position x 2 variables (so {X,Y} can be answered by a product), {X,Y} at 2 positions x 2 variables; the registry is read through get_metric on the same object before and after every call; actions: every list of 1-3 variables at pairwise different positions in every order x overwrite T/F (+ constructor metrics= as first action); BFS to depth 4, key spellings str/tuple/list rotating",
+    "quick": "pool: axis set {X} at 2 positions x 2 variables, {Y} at 1 position x 2 variables (so {X,Y} can be answered by a product), {X,Y} at 3 positions (two sharing one axis' position each, two using the same position words crosswise) x 2 variables; the registry is read through get_metric on the same object before and after every call; actions: every list of 1-3 variables at pairwise different positions in every order x overwrite T/F (+ constructor metrics= as first action); BFS to depth 3, key spellings str/tuple/list rotating",
     "thorough": "{X} at 3 positions, {X,Y} at 3 positions; BFS to depth 3 (the larger pool has 4563 states; every state reached within 2 calls is expanded)",
 }
-BOUNDS = {"quick": {"depth": 4}, "thorough": {"depth": 3}}
+BOUNDS = {"quick": {"depth": 3}, "thorough": {"depth": 3}}
 ASSUMPTIONS = [
     "states are identified through get_metric only; two variables per slot carry distinct prime labels so the occupant is identified exactly",
-    "a batch containing a refused element may be applied atomically or as a prefix (both accepted); it must raise and leave the refused slot unchanged",
+    "a batch containing a refused element must raise, leave the refused slot unchanged and leave the variables listed before it registered (as one call per variable would); variables listed after it may or may not be registered",
     "histories are compared with their one-at-a-time equivalent in the same order; different registration orders are not required to agree on interpolated answers",
 ]
 
@@ -50,7 +50,9 @@ def pool(tier):
     # a block for Y alone, so that {X,Y} requests can be answered by a product of blocks
     for k in (1, 2):
         vs.append(MG.make_var(f"dy_c{k}", ("Y",), {"Y": "center"}, pit))
-    pairs = [("center", "center"), ("left", "left")] + ([("left", "center")] if tier == "thorough" else [])
+    # (center,center) / (left,center) share Y's position, (center,center) / (center,left) share X's, and
+    # (left,center) / (center,left) use the same position words crosswise: three different slots
+    pairs = [("center", "center"), ("left", "center"), ("center", "left")] + ([("left", "left")] if tier == "thorough" else [])
     for px, py in pairs:
         for k in (1, 2):
             # the second variable of a slot stores its dimensions in the other order: same position, same slot
@@ -256,7 +258,14 @@ def check_transition(c, rec, history, act, occ0, tier):
             rec.violation("registry", "occupied-slot-not-refused", case, "raise", names(c, occ2))
             ok = False
         else:
+            first_refused = min(i for i, n in enumerate(act["v"]) if slot_index(c, n) in refused)
+            before = {slot_index(c, n) for n in act["v"][:first_refused]}
             for si in seq:
+                if si in before and si not in refused and occ2[si] != seq[si]:
+                    # one at a time, in the same order, the variables listed before the refused one are registered
+                    rec.violation("batching", "refused-batch-drops-earlier-variables", case, names(c, seq), names(c, occ2))
+                    ok = False
+                    break
                 if si in refused:
                     if occ2[si] != occ0[si]:
                         rec.violation("registry", "refused-slot-changed", case, names(c, occ0), names(c, occ2))
